@@ -70,7 +70,7 @@ ASSUMPTIONS = [
 PROBES = [
     "family.JSONPathSyntaxError", "family.JSONPathTypeError", "family.JSONPathNameError", "family.JSONPathIndexError",
     "family.JSONPointerError", "family.JSONPatchError", "family.JSONDecodeError", "family.UnicodeDecodeError",
-    "corruption_still_decodable", "r_used.path", "r_used.pointer", "stdin_document", "o_sink", "ok_nonempty",
+    "large_document", "corruption_still_decodable", "r_used.path", "r_used.pointer", "stdin_document", "o_sink", "ok_nonempty",
 ]
 
 _ENV = jsonpath.JSONPathEnvironment()
@@ -215,6 +215,7 @@ def generate(seed: int, config: str, tier: str) -> Dict[str, Any]:
         "patch": patch,
         "faults": faults,
         "subprocess": config == "subprocess",
+        "pad": rng.choice([4097, 8193, 65537, 131073]) if rng.random() < 0.05 else 0,
     }
     return {"property": PROPERTY, "config": config, "seed": seed, "knobs": {}, "plan": plan}
 
@@ -337,7 +338,12 @@ def execute(spec: Dict[str, Any], ctx: Ctx) -> None:
     plan = spec["plan"]
     cmd = plan["cmd"]
     fired: List[str] = []
-    doc_bytes = apply_faults(_dump(plan["doc"], plan["doc_style"]), plan["faults"], "doc", fired)
+    raw = _dump(plan["doc"], plan["doc_style"])
+    if plan.get("pad"):
+        # buggify-style size knob: a document larger than any plausible read chunk (JSON whitespace)
+        raw = raw[:1] + b" " * int(plan["pad"]) + raw[1:]
+        ctx.count("probe.large_document")
+    doc_bytes = apply_faults(raw, plan["faults"], "doc", fired)
     patch_bytes = b""
     if cmd == "patch":
         patch_bytes = apply_faults(_dump(plan["patch"], "compact"), plan["faults"], "patch", fired)
@@ -462,8 +468,8 @@ def shrink_plan(plan: Dict[str, Any]) -> Iterator[Dict[str, Any]]:
         p["faults"] = fl
         yield p
     for key, simple in (("gopts", []), ("sopts", []), ("expr_src", "inline"), ("doc_src", "file"), ("out", "stdout"),
-                        ("doc_style", "compact"), ("expr_suffix", ""), ("subprocess", False)):
-        if plan[key] != simple and not (key == "expr_src" and plan["cmd"] == "patch"):
+                        ("doc_style", "compact"), ("expr_suffix", ""), ("subprocess", False), ("pad", 0)):
+        if plan.get(key, simple) != simple and not (key == "expr_src" and plan["cmd"] == "patch"):
             p = dict(plan)
             p[key] = simple
             yield p
